@@ -298,6 +298,74 @@ type handler struct {
 	stuckGate chan struct{}
 	tagErrs   []string // results of tag calls made from inside HandleMessage
 	panics    []string
+	hooks     []*hookWait // close-hook invocations that parked
+	hookCalls int
+}
+
+type hookWait struct {
+	ch       chan struct{}
+	burst    int
+	released bool
+}
+
+// closeHook is registered with streampool.WithStreamCloseHook (documented to run outside the
+// pool lock). Depending on the case it returns at once, parks until the controller releases
+// it (so later pool calls run while it is parked), and/or calls back into the pool.
+func (hd *handler) closeHook(streamId uint32, peerId string, tags []string) {
+	h := hd.h
+	defer func() {
+		if r := recover(); r != nil {
+			hd.mu.Lock()
+			hd.panics = append(hd.panics, fmt.Sprintf("panic in close hook: %v", r))
+			hd.mu.Unlock()
+		}
+	}()
+	kind := h.c.Hook
+	var w *hookWait
+	hd.mu.Lock()
+	hd.hookCalls++
+	if (kind == hookPark || kind == hookParkReenter) && !h.draining {
+		w = &hookWait{ch: make(chan struct{}), burst: int(h.burstAt.Load())}
+		hd.hooks = append(hd.hooks, w)
+	}
+	hd.mu.Unlock()
+	if w != nil {
+		<-w.ch
+	}
+	if kind == hookReenter || kind == hookParkReenter {
+		var all []string
+		for t := 0; t < nTags; t++ {
+			all = append(all, tagName(t))
+		}
+		_ = h.pool.Streams(all...)
+		_ = h.pool.RemoveTagsById(streamId, tags...)
+		_ = h.pool.Broadcast(h.ctx, &Msg{Id: -1}, "tag-nobody-has")
+	}
+}
+
+// releaseHooks lets the hooks that parked in a burst before `before` return.
+func (hd *handler) releaseHooks(before int) (n int) {
+	hd.mu.Lock()
+	defer hd.mu.Unlock()
+	for _, w := range hd.hooks {
+		if !w.released && w.burst < before {
+			w.released = true
+			close(w.ch)
+			n++
+		}
+	}
+	return
+}
+
+func (hd *handler) hooksParked() (n int) {
+	hd.mu.Lock()
+	defer hd.mu.Unlock()
+	for _, w := range hd.hooks {
+		if !w.released {
+			n++
+		}
+	}
+	return
 }
 
 var _ streamhandler.StreamHandler = (*handler)(nil)
